@@ -62,6 +62,13 @@ def explore_task(modname, taskname):
     from .world import World, PathEnd, STATS
     from .interp import Interp, PyRaise
     t0 = time.time()
+    try:
+        # a runaway exploration ends as MemoryError (-> engine error, exit 3 = undecided) instead of taking the machine down
+        import resource
+        lim = int(os.environ.get("PYVC_MEM_GB", "10")) << 30
+        resource.setrlimit(resource.RLIMIT_AS, (lim, lim))
+    except Exception:
+        pass
     mod = importlib.import_module(modname)
     prop = getattr(mod, "PROP")
     tk = [t for t in REGISTRY[prop] if t.name == taskname][0]
@@ -264,10 +271,17 @@ def main(argv=None):
             if fn.endswith(".json"):
                 os.unlink(os.path.join(rdir, fn))
     ctx = multiprocessing.get_context("fork")
+    died = False
     with ProcessPoolExecutor(max_workers=min(a.jobs, len(tasks)), mp_context=ctx) as ex:
         futs = {ex.submit(explore_task, modname, t.name): t for t in tasks}
         for f in as_completed(futs):
-            summaries.append(f.result())
+            try:
+                summaries.append(f.result())
+            except Exception as e:  # a worker died (killed, out of memory): undecided, never a violation
+                print(f"ENGINE-ERROR: worker of task {futs[f].name} died: {type(e).__name__}: {str(e)[:200]}")
+                died = True
+        if died:
+            return 3
     summaries.sort(key=lambda s: s["task"])
     return report(prop, tier, seed, mod, summaries, t0, verbose=a.v, partial=bool(a.only))
 
